@@ -3,6 +3,7 @@ import DnsVerif.Lemmas.ApiMachines
 import DnsVerif.Lemmas.SoundMsg
 import DnsVerif.Lemmas.CompleteMsg
 import DnsVerif.Lemmas.RTElem
+import DnsVerif.Lemmas.ExtraA
 
 /-! # C17 — address-prefix items (APL, ECS) use the RFC forms in both directions
 
@@ -10,7 +11,9 @@ Model: `checkPrefix` (src/rr/subtypes.rs), `D.address` (zero fill, src/decode/rr
 `addrWithPrefix` (ECS writer loop), `stripZeros` (APL writer as repaired). First the acceptance condition
 itself, the emitted octet counts and loss-free cutting; then item level: an APL item / ECS option is
 accepted ⇔ the grammar `ApItemAt` / `OptionAt.ecs` (`PrefixAddrAt`: ANY number `k` of address octets from
-none up to the family size, missing octets zero, prefix within the family size, no bit beyond it). -/
+none up to the family size, missing octets zero, prefix within the family size, no bit beyond it).
+`apl_writer_emits_minimal` / `ecs_writer_emits_prefix_octets` tie the two helpers to the WRITERS
+`encApItem` / `encOption`: the exact octets they append. -/
 
 namespace C17
 
@@ -84,5 +87,52 @@ theorem ecs_roundtrip {p x v fam src scope : Nat} {dn : Bool} {addr : Bytes} (hp
     ∃ b d, encodeRR (RT.optRR p x v dn [.ecs fam src scope addr]) = .ok b ∧
       decodeRR b = .ok (RT.optRR p x v dn [.ecs fam src scope addr], d) ∧ d.off = b.length ∧ b.length ≤ 35 :=
   RT.ecs_roundtrip hp hx hv hwf
+
+/-! ## The writers themselves: exactly which octets are appended -/
+
+/-- **APL writer (`encApItem`, every state, every item, NO well-formedness premise).** On success the
+output grows by exactly: the two family octets, the prefix octet, one octet holding the address length
+`k` (plus 128 for a negated item) and `k` address octets, where `k < 128` and the `k` octets are the
+address cut after its last non-zero octet: a prefix of the address, everything cut off is zero, the last
+emitted octet is non-zero (no trailing zero octet), and no shorter cut has an all-zero remainder
+(RFC 3123 §4.1). The compression table is untouched. -/
+theorem apl_writer_emits_minimal {e e' : Enc} {it : APItem} (h : encApItem e it = .ok e') :
+    ∃ k addr', k < 128 ∧ addr'.length = k ∧
+      e'.out = e.out ++ (beBytes 2 it.fam ++ beBytes 1 it.pfx ++
+        [UInt8.ofNat (k + if it.neg then 128 else 0)] ++ addr') ∧ e'.idx = e.idx ∧
+      addr' = stripZeros it.addr ∧ addr' = it.addr.take k ∧ (∀ x ∈ it.addr.drop k, x = 0) ∧
+      (∀ hne : addr' ≠ [], addr'.getLast hne ≠ 0) ∧
+      (∀ j, (∀ x ∈ it.addr.drop j, x = 0) → k ≤ j) := by
+  obtain ⟨rfl, hlt⟩ := ExtraA.encApItem_emits h
+  obtain ⟨h1, h2, h3, h4⟩ := stripZeros_spec it.addr
+  exact ⟨_, _, hlt, rfl, rfl, rfl, rfl, h1, h2, h3, h4⟩
+
+/-- … and it succeeds exactly when fewer than 128 octets remain after the cut -/
+theorem apl_writer_ok_iff (e : Enc) (it : APItem) :
+    (∃ e', encApItem e it = .ok e') ↔ (stripZeros it.addr).length < 128 :=
+  ⟨fun ⟨_, h⟩ => (ExtraA.encApItem_emits h).2, ExtraA.encApItem_total e⟩
+
+/-- **ECS writer (`encOption` on a client-subnet option, every state, NO well-formedness premise).** On
+success the output grows by exactly: OPTION-CODE 8, OPTION-LENGTH `4 + n`, FAMILY, SOURCE and SCOPE
+PREFIX-LENGTH and `n` address octets, which are the first `n` octets of the address with
+`n = min(⌊m/8⌋ + 1, size)`, `m = max(source, scope)` (the count of `ecs_emit_octets`; compared with the
+RFC 7871 count `⌈m/8⌉` in `ecs_emit_rfc_iff` / `ecs_emit_extra`, known finding K2). -/
+theorem ecs_writer_emits_prefix_octets {e e' : Enc} {fam src scope : Nat} {addr : Bytes}
+    (h : encOption e (.ecs fam src scope addr) = .ok e') :
+    ∃ n addr', n = min (max src scope / 8 + 1) addr.length ∧ addr'.length = n ∧
+      e'.out = e.out ++ (beBytes 2 8 ++ beBytes 2 (4 + n) ++
+        (beBytes 2 fam ++ beBytes 1 src ++ beBytes 1 scope ++ addr')) ∧ e'.idx = e.idx ∧
+      addr' = addrWithPrefix addr (max src scope) ∧ addr' = addr.take (max src scope / 8 + 1) ∧
+      4 + n ≤ 65535 := by
+  obtain ⟨rfl, hle⟩ := ExtraA.encOption_ecs_emits h
+  have hl := addrWithPrefix_length addr (max src scope)
+  refine ⟨_, _, rfl, hl, ?_, rfl, rfl, addrWithPrefix_eq addr (max src scope), by rw [← hl]; exact hle⟩
+  rw [← hl]; rfl
+
+/-- `!1:10.1.2.0/24` and ECS `10.1.2.0/24`: the writers run and emit three address octets each -/
+example : ∃ e', encApItem {} ⟨1, 24, true, [10, 1, 2, 0]⟩ = .ok e' ∧ e'.out = [0, 1, 24, 131, 10, 1, 2] :=
+  ⟨_, rfl, rfl⟩
+example : ∃ e', encOption {} (.ecs 1 23 0 [10, 1, 2, 0]) = .ok e' ∧
+    e'.out = [0, 8, 0, 7, 0, 1, 23, 0, 10, 1, 2] := ⟨_, rfl, rfl⟩
 
 end C17
